@@ -28,6 +28,10 @@ CLAIMED = {
    text='Coq theorems (coq/props/C20.v) over ALL submit/complete/shutdown sequences of a model of the CRT manager glue: permits + holders = 128 (count regenerated from source) in every reachable state, exactly one release per transfer on all four paths (construction failure, success, error, cancel), on_done order (publish/remove, then subscribers, then release, then the after-done flag), path downloads renamed on success / removed on error-cancel, shutdown returns iff every after-done flag is set, the (128+1)-th submit blocks rather than fails. Tie checked every run: differential of the real CRTTransferManager against the extracted model through a deterministic stub awscrt (exhaustive <=4-5 ops, sampled deeper, random, one run at 128+5 transfers, helper-thread blocking tests).',
    ref='DESIGN.md 5.C20',
    note='Partial: the real CRT client and its callback threads are not available in this sandbox (stub awscrt: a request finishes once, the future is resolved before on_done, a failing make_request creates no file). Exactly-one-release is stated for non-raising subscribers (a raising on_done subscriber leaks the permit and hangs shutdown: refuted lemma, outside C20\'s quantifier). Trusted: Coq kernel; gen_tables.py; extraction + OCaml driver + Python harness.'),
+ 'C09': dict(
+   text='Coq theorems (coq/props/C09.v, 28) over models of ReadFileChunk, the aggregated progress callback and the download retry loop: for every request script of botocore\'s life cycle (any number/position of body rewinds, any read sizes, any reads and seeks while reporting is suppressed) the sum of reported bytes equals min(amount_read, size) whenever reporting is enabled, hence stays within [0, size] and equals size after a complete send; the aggregator conserves the raw sum; for every stream-fault script, read-size script and cancel point the per-range download sum stays in [0, len] and equals len on success; at most num_download_attempts requests, non-retryable errors never retried; copy part sizes sum to the size; totals over any interleaving of parts. The hypothesis "suppressed segments return to where they began" is decided by an extracted, proved-sound checker on every recorded body script. Tie checked every run: differential of the real ReadFileChunk (through all three input managers + aggregator) and of GetObjectTask._main (both classes) against the extracted models, end-to-end TransferManager runs with recording subscribers, and uploads through the real botocore client with a stubbed HTTP layer (500 then 200).',
+   ref='DESIGN.md 5.C09',
+   note='Trusted: Coq kernel; extraction + OCaml drivers + Python harness (correspondence only). Upload part sizes summing to the transfer size are taken from C14/C01. For uploads the subscriber never sees negative values (the aggregator absorbs a rewind into its pending amount): "taken back with negative values" holds literally at the raw callback level and for downloads.'),
 }
 
 
